@@ -771,6 +771,12 @@ let () =
                 | Some i -> do_enc (String.sub r (i + 1) (String.length r - i - 1))
                 | None -> do_enc "")
              | "DEC" -> do_dec rest
+             | "DECP" ->
+               (* how the reader hands out the bytes does not matter *)
+               let r = String.trim rest in
+               (match String.index_opt r ' ' with
+                | Some i -> do_dec (String.sub r (i + 1) (String.length r - i - 1))
+                | None -> do_dec "")
              | "TRACE" -> do_trace rest
              | "LOCK" -> do_lock rest
              | "COQIMG" -> (match toks rest with
